@@ -98,7 +98,7 @@ def k_direct(run, case):
         contracts.snapshot_diff(s2, contracts.field_snapshot(t_est))
     run.check(not bad, "APE leaves its inputs unchanged", case, "process_data modified %s" % bad,
               key="ape:inputs-modified")
-    e = np.asarray(metric.error, dtype=float)
+    e = np.array(metric.error, dtype=float)  # (a copy: the object is converted to other units below)
     if not run.check(e.shape == (n, ), "APE: exactly one value per pose", case,
                      "error has shape %s for %d poses" % (e.shape, n), key="ape:length"):
         return
@@ -115,6 +115,22 @@ def k_direct(run, case):
         top = PI if relation.endswith("rad") else 180.0
         run.check(bool(np.all(e >= 0)) and bool(np.all(e <= top * (1 + 1e-12))), "APE angle in [0, pi]",
                   case, "angle outside [0, pi]: min %r max %r" % (float(e.min()), float(e.max())))
+    if relation in ("translation_part", "point_distance") and rng.random() < .3:
+        # the values shown in other length units, one conversion after the other on the same object
+        # (m -> cm -> mm, m -> km -> m ...): after each step the values are the definition's, in that unit
+        scale = {"mm": 1e3, "cm": 1e2, "m": 1.0, "km": 1e-3}
+        chain = [["mm", "cm", "m", "km"][rng.integers(4)] for _ in range(int(rng.integers(2, 4)))]
+        for u in chain:
+            out_u = contracts.outcome_of(metric.change_unit, metrics.Unit(u))
+            if not run.check(out_u[0] == "ok", "length unit conversion accepted", case,
+                             "change_unit(%s) in the chain %s raised %r" % (u, chain, out_u[1]), key="ape:unit-chain-raised"):
+                break
+            eu = np.asarray(metric.error, dtype=float)
+            run.check(eu.shape == want.shape and bool(np.all(np.abs(eu - want * scale[u]) <= (tol + 1e-12 * np.abs(want)) * scale[u] * 4)),
+                      "APE values after chained unit conversions", case,
+                      "after the conversions %s the values are not the definition's in %s (e.g. %r vs %r)" %
+                      (chain[:chain.index(u) + 1], u, float(eu[0]) if eu.size else None, float(want[0] * scale[u]) if want.size else None),
+                      key="ape:unit-chain")
     # metamorphic: swap, common rigid motion, coincidence
     m = metrics.APE(metrics.PoseRelation[relation])
     m.process_data((gen.make_evo(est, m2, stamped), gen.make_evo(ref, m1, stamped)))
